@@ -76,6 +76,14 @@ def check_table_roles(cx: Cx, ob: Ob, tables_wanted: list[str]) -> None:
                 uncond = [e for e in good if not _restricting(e.conditions, table)]
                 if not uncond:
                     c = good[0].conditions[0]
+                    if op(c[0]) == "partial":
+                        ob.violate(
+                            good[0].fn,
+                            good[0].site,
+                            f"only the slice `{show(c[0][1])[:50]}` of `{f}` enters `{table}`: entries outside the slice (e.g. synonyms that sort before the already indexed ones after a merge re-sorts the list) never reach the table",
+                            detail=f"{table}:partial:{f}",
+                        )
+                        continue
                     ob.violate(
                         good[0].fn,
                         good[0].site,
@@ -299,7 +307,9 @@ def format_curie_check(cx: Cx, ob: Ob) -> None:
         parts = concat_parts(t)
         ob.site(fn, f"return {show(t)[:60]}")
         want = [("param", "prefix"), ("attr", me, "delimiter"), ("param", "identifier")]
-        if parts is None:
+        if parts is None and op(t) in ("param", "attr", "const"):
+            ob.violate(fn.qualname, fn.where, f"format_curie returns `{show(t)[:60]}` on some path instead of prefix + self.delimiter + identifier: the result does not split back into (prefix, identifier)", witness="prefix '' and identifier 'GO:1234' print as 'GO:1234', which parses as prefix 'GO'", detail="template")
+        elif parts is None:
             ob.undecide(f"format_curie returns `{show(t)[:60]}`")
         elif parts != want:
             if len(parts) == 3 and is_const(parts[1]):
@@ -412,3 +422,17 @@ def x6(cx: Cx, ob: Ob) -> None:
     from .c02 import none_scope
 
     scan_none_discipline(cx, ob, none_scope(cx))
+
+
+@obligation("C01-X8", "the Record model stores prefixes and URI prefixes verbatim: no pydantic string transformation (strip / case folding / length limits) in its model_config or field declarations", floor=1)
+def x8(cx: Cx, ob: Ob) -> None:
+    from ..rules import record_verbatim
+
+    record_verbatim(cx, ob)
+
+
+@obligation("C01-X10", "Converter.__init__ reads its (Iterable, possibly one-shot) `records` argument only through one materialising call (sorted/list) and keeps that fresh list - never the caller's list object, never sorted in place", floor=2)
+def x10(cx: Cx, ob: Ob) -> None:
+    from ..rules import constructor_owns_records
+
+    constructor_owns_records(cx, ob)
